@@ -227,10 +227,6 @@ func (p *PerClusterReporter) stats() *loadData {
 		inProgress := countData.loadInProgress()
 		errored := countData.loadAndClearErrored()
 		issued := countData.loadAndClearIssued()
-		if succeeded == 0 && inProgress == 0 && errored == 0 && issued == 0 {
-			return true
-		}
-
 		ld := localityData{
 			requestStats: requestData{
 				succeeded:  succeeded,
@@ -251,6 +247,9 @@ func (p *PerClusterReporter) stats() *loadData {
 			}
 			return true
 		})
+		if succeeded == 0 && inProgress == 0 && errored == 0 && issued == 0 && len(ld.loadStats) == 0 {
+			return true
+		}
 		sd.localityStats[key.(clients.Locality)] = ld
 		return true
 	})
